@@ -37,6 +37,10 @@ struct Case {
     /// path / node type: two `Config` structs in two modules)
     #[serde(default)]
     alias: Vec<usize>,
+    /// resolver call sequence: 0 = every node once, then the edges; 1 = the edges first,
+    /// then every node; 2 = every node twice, then the edges; 3 = interleaved
+    #[serde(default)]
+    call_order: u8,
 }
 
 fn name(i: usize) -> String {
@@ -149,18 +153,51 @@ fn run_routines(c: &Case) -> Result<(), String> {
     };
     let idx = |n: &DependencyNode| -> String { n.path.trim_start_matches("src/n").trim_end_matches(".rs").to_string() };
     let mut r = DependencyResolver::new();
-    for i in 0..c.n {
-        r.add_node(node(i));
-    }
-    for (k, &(u, v)) in c.edges.iter().enumerate() {
-        let dependency_type = match k % 5 {
-            0 => DependencyType::Field,
-            1 => DependencyType::Generic,
-            2 => DependencyType::Direct,
-            3 => DependencyType::Variant,
-            _ => DependencyType::Import,
-        };
-        r.add_dependency(Dependency { from: node(u), to: node(v), dependency_type });
+    let add_edges = |r: &mut DependencyResolver, from: usize, to: usize| {
+        for (k, &(u, v)) in c.edges.iter().enumerate().skip(from).take(to - from) {
+            let dependency_type = match k % 5 {
+                0 => DependencyType::Field,
+                1 => DependencyType::Generic,
+                2 => DependencyType::Direct,
+                3 => DependencyType::Variant,
+                _ => DependencyType::Import,
+            };
+            r.add_dependency(Dependency { from: node(u), to: node(v), dependency_type });
+        }
+    };
+    let ne = c.edges.len();
+    match c.call_order {
+        1 => {
+            add_edges(&mut r, 0, ne);
+            for i in 0..c.n {
+                r.add_node(node(i));
+            }
+        }
+        2 => {
+            for i in 0..c.n {
+                r.add_node(node(i));
+            }
+            for i in 0..c.n {
+                r.add_node(node(i));
+            }
+            add_edges(&mut r, 0, ne);
+        }
+        3 => {
+            add_edges(&mut r, 0, ne / 2);
+            for i in 0..c.n {
+                r.add_node(node(i));
+            }
+            add_edges(&mut r, ne / 2, ne);
+            if c.n > 0 {
+                r.add_node(node(0));
+            }
+        }
+        _ => {
+            for i in 0..c.n {
+                r.add_node(node(i));
+            }
+            add_edges(&mut r, 0, ne);
+        }
     }
     match r.resolve_build_order() {
         Ok(order) => println!("R ok {}", order.iter().map(|n| format!("N{}", idx(n))).collect::<Vec<_>>().join(",")),
@@ -272,7 +309,8 @@ impl Check for C20 {
                 alias[a] = r.below(a as u64) as usize;
             }
         }
-        serde_json::to_value(Case { n, edges, incremental: r.chance(1, 3), requested, keys, via_analyzer: via_analyzer && n <= 7, edges2, alias }).unwrap()
+        let call_order = ((i / 7) % 4) as u8;
+        serde_json::to_value(Case { n, edges, incremental: r.chance(1, 3), requested, keys, via_analyzer: via_analyzer && n <= 7, edges2, alias, call_order }).unwrap()
     }
 
     fn exec(&self, env: &mut Env, case: &Value) -> CaseOut {
@@ -499,6 +537,11 @@ impl Check for C20 {
         for k in 0..c.edges2.len() {
             let mut d = c.clone();
             d.edges2.remove(k);
+            out.push(d);
+        }
+        if c.call_order != 0 {
+            let mut d = c.clone();
+            d.call_order = 0;
             out.push(d);
         }
         if c.alias.iter().enumerate().any(|(i, a)| *a != i) {
